@@ -321,6 +321,7 @@ class Engine:
         if r is None: r = self._parse_place(s.strip()); self.cache[("pl", s)] = r
         return r
     def _parse_place(self, s):
+        if s.startswith("(fake) "): s = s[7:]          # fake borrows (match guards)
         m = re.match(r"^_(\d+)$", s)
         if m: return [("local", int(m.group(1)))]
         if s.endswith("]"):
